@@ -664,6 +664,8 @@ class Engine:
                                 rs = self.ev(b.value, State(), mod)
                                 if len(rs) == 1 and rs[0].exc is None:
                                     return [Res(st, rs[0].val)]
+            if v.qname and self.static_function(q) is not None:
+                return [Res(st, VFunc(q))]       # a static helper of a repo class without contract or spec: executed in place when called
             raise Unsupported("class attribute %s" % q)
         if isinstance(v, (VBytes, VStr, VTuple, VList, VInt, VJoinList, VSeq, VSet, VReal)):
             return [Res(st, VBound(v, name))]
@@ -1444,13 +1446,25 @@ class Engine:
             return None
         return mod, fn
 
+    def static_function(self, q):
+        """(module, FunctionDef) of a repo function decorated with exactly @staticmethod (reached through its class: no receiver is bound), or None"""
+        try:
+            modq, fq = self.split_func(q)
+            mod = Module.load(modq)
+        except Unsupported:
+            return None
+        fn = mod.funcs.get(fq)
+        if fn is None or len(fn.decorator_list) != 1 or not (isinstance(fn.decorator_list[0], ast.Name) and fn.decorator_list[0].id == "staticmethod"):
+            return None
+        return mod, fn
+
     def auto_inline(self, st, q, args, kwargs):
         """a small helper of the repository that has neither contract nor spec (e.g. one a refactoring extracted) is executed in place: it is
         verified as part of its caller, nothing is assumed about it.  Bounded depth, no recursion."""
         stack = getattr(self, "_inline_stack", [])
         if q in stack or len(stack) >= 3:
             return None
-        found = self.repo_function(q)
+        found = self.repo_function(q) or self.static_function(q)
         if found is None:
             return None
         mod, fn = found
